@@ -54,6 +54,9 @@ type Case struct {
 	Tagged bool
 	// NoWrap: the body runs without the recover wrapper.
 	NoWrap bool
+	// CoarseBuildErr keys a Scriggo build error by the family only (the first
+	// word of Key): used when the other key attributes cannot matter for it.
+	CoarseBuildErr bool
 	// DiffLabel adds to the key of an output mismatch where the first
 	// difference is: DiffPrefix = the "name" of the first differing "name: …"
 	// line; DiffLine = the first word of that line.
@@ -311,6 +314,9 @@ type ScriggoResult struct {
 
 var posPrefix = regexp.MustCompile(`^[^ ]*:\d+:\d+: `)
 
+// maxOutput bounds what is kept of a program's output.
+const maxOutput = 1 << 20
+
 // HangAfter is how long a Build or a Run may take before the case is declared
 // hanging (a case normally takes well under a millisecond).
 var HangAfter = 20 * time.Second
@@ -361,10 +367,12 @@ func runScriggo(src []byte, allowGo bool, timeout time.Duration, phase *atomic.I
 	}
 	ro := &scriggo.RunOptions{Print: func(v any) {
 		mu.Lock()
-		var ok bool
-		out, ok = gcref.AppendPrint(out, v)
-		if !ok {
-			unprintable = true
+		if len(out) < maxOutput { // a program that prints for ever must not exhaust the memory
+			var ok bool
+			out, ok = gcref.AppendPrint(out, v)
+			if !ok {
+				unprintable = true
+			}
 		}
 		mu.Unlock()
 	}}
@@ -454,6 +462,7 @@ func Compare(c *Case, want string, got ScriggoResult) kit.Outcome {
 			return kit.Outcome{OK: true, Class: "outside Scriggo's subset (" + kit.NormMsg(got.Msg) + ")", Ops: 1}
 		}
 		sc = "build-error(" + kit.NormMsg(got.Msg) + ")"
+		familyOnly = c.CoarseBuildErr
 	case "host-panic":
 		sc = "host-panic"
 		o.Key = "hostpanic|" + got.Frame + "|" + kit.NormMsg(got.Msg)
@@ -478,7 +487,7 @@ func Compare(c *Case, want string, got ScriggoResult) kit.Outcome {
 		o.Key += " gc=" + gcClass + " scriggo=" + sc
 	}
 	o.Class = "FAIL gc=" + classHead(gcClass) + " scriggo=" + classHead(sc)
-	o.Detail = fmt.Sprintf("gc output:      %q\nscriggo output: %q\nscriggo status: %s %s", want, got.Out, got.Status, got.Msg)
+	o.Detail = fmt.Sprintf("gc output:      %q\nscriggo output: %q\nscriggo status: %s %s", want, cut(got.Out, 1500), got.Status, got.Msg)
 	return o
 }
 
@@ -645,6 +654,13 @@ func PrefillAll(fams []*Family, par int) error {
 	}
 	wg.Wait()
 	return first
+}
+
+func cut(s string, n int) string {
+	if len(s) <= n {
+		return s
+	}
+	return s[:n] + fmt.Sprintf("… (%d bytes in all)", len(s))
 }
 
 func tailStr(s string, n int) string {
